@@ -712,6 +712,25 @@ def _defs_named(scope: ast.AST, name: str) -> list[ast.AST]:
     return out
 
 
+def require_locals(func: ast.AST, names, rule: str) -> None:
+    """A rule that finds its constructs through the NAME of a local variable cannot say anything once that local is called
+    otherwise: the anchor is gone, which is `cannot decide` (exit 2), never a violation."""
+    bound = {n.id for n in ast.walk(func) if isinstance(n, ast.Name) and isinstance(n.ctx, (ast.Store, ast.Del))}
+    for f in ast.walk(func):
+        if isinstance(f, (ast.FunctionDef, ast.Lambda)):
+            a = f.args
+            bound |= {x.arg for x in [*a.posonlyargs, *a.args, *a.kwonlyargs]}
+            if a.vararg:
+                bound.add(a.vararg.arg)
+            if a.kwarg:
+                bound.add(a.kwarg.arg)
+        if isinstance(f, ast.FunctionDef):
+            bound.add(f.name)
+    missing = [n for n in names if n not in bound]
+    if missing:
+        raise AnalysisError(rule, f"{getattr(func, 'name', '?')}: the local name(s) {missing} this rule is anchored on do not exist (renamed?)")
+
+
 def own_nodes(func: ast.AST) -> Iterable[ast.AST]:
     """Pre-order walk (source order) of a function body without entering nested
     defs / lambdas / classes (the nested def node itself is yielded)."""
